@@ -186,6 +186,8 @@ tagspec(struct scope *s)
 		tag = tok.lit;
 		next();
 	}
+	if (!tag && tok.kind != TLBRACE && !(kind == TYPEENUM && tok.kind == TCOLON))
+		error(&tok.loc, "expected identifier or '{' after '%s'", tokstr[kind == TYPESTRUCT ? TSTRUCT : kind == TYPEUNION ? TUNION : TENUM]);
 	if (kind == TYPEENUM && consume(TCOLON)) {
 		et = declspecs(s, NULL, NULL, NULL).type;
 		if (!et)
